@@ -208,7 +208,14 @@ static void history(Builder &b, const HistoryOpts &ho) {
 		b.alloc_cache(c, b.rnd_cache_flags(), b.rnd_heap());
 		b.init_cache(c, b.rnd_key());
 	}
-	bool want_fast = ho.allow_fast && gc.small && rng.chance(1, 3);
+	bool want_fast = ho.allow_fast && gc.small && rng.chance(2, 5);
+	if (want_fast && rng.chance(2, 3)) { // fast-mode objects from the start
+		int d = b.free_d();
+		b.alloc_dataset(d, rng.chance(1, 3) ? F_LARGE : 0, b.rnd_heap());
+		b.init_dataset_full(d, 0);
+		int v = b.free_v();
+		b.create_vm(v, vm_flags_fast(), rng.chance(1, 3) ? 0 : -1, d, b.rnd_heap());
+	}
 	int guard = 0;
 	while ((int)b.plan.ops.size() < target && ++guard < 400) {
 		uint64_t r = rng.below(100);
@@ -239,6 +246,22 @@ static void history(Builder &b, const HistoryOpts &ho) {
 			} else d = rng.pick(dc);
 			int v = b.free_v(); if (v < 0 || b.live_vms() >= 4) continue;
 			b.create_vm(v, vm_flags_fast(), rng.chance(1, 3) ? rng.pick(ready) : -1, d, b.rnd_heap());
+		} else if (r < 22) { // re-initialise a complete dataset in place from another key, or bind a fast VM to another dataset
+			if (!want_fast || ready.empty()) continue;
+			auto dc = b.datasets_complete();
+			if (dc.empty()) continue;
+			int d = rng.pick(dc);
+			bool in_batch = false; for (int w : vms) if (b.V[w].batch && (b.V[w].flags & F_FULL) && b.V[w].d == d) in_batch = true;
+			if (in_batch) continue;
+			if (rng.chance(2, 3)) {
+				b.init_dataset_full(d, rng.pick(ready));
+				for (int w : vms) if (b.V[w].alive && (b.V[w].flags & F_FULL) && b.V[w].d == d && !b.V[w].batch) {
+					if (rng.chance(1, 2)) b.set_dataset(w, d); // not required after an in-place re-initialisation; both orders are legal
+					if (rng.chance(3, 4)) b.hash(w, b.rnd_input());
+				}
+			} else if (dc.size() > 1) {
+				for (int w : vms) if (b.V[w].alive && (b.V[w].flags & F_FULL) && !b.V[w].batch && rng.chance(1, 2)) { b.set_dataset(w, rng.pick(dc)); b.hash(w, b.rnd_input()); }
+			}
 		} else if (r < 45) { // single hash
 			if (vms.empty()) continue;
 			int v = rng.pick(vms);
